@@ -282,8 +282,73 @@ class Extras(SubCheck):
         return out
 
 
+class Generated(Extras):
+    """Extras over generated documents: (name, doc) pairs"""
+
+    def __init__(self, svg, tier, name, docs):
+        self.svg = svg
+        self.name = name
+        self.docs = docs
+        self.p = Product(range(len(docs)), [True, False], [None])
+
+    def case(self, i):
+        ei, reify, color = self.p[i]
+        return dict(name=self.docs[ei][0], doc=self.docs[ei][1], reify=reify, color=color)
+
+
+BODY = ('<g id="G" class="m"><rect id="L" class="k" width="3" height="4"/><circle id="C" class="m" r="2"/>'
+        '<ellipse id="E" class="k m" rx="2" ry="1"/></g><line id="Z" x2="3" y2="3"/></svg>')
+SELS = ["rect", ".k", "#L", "*", "circle", ".m", "#C", "g", "ellipse.k", ".none"]
+PVALS = [("fill", "#110000", "#001100"), ("stroke", "#000022", "#220022"), ("stroke-width", "3", "7")]
+
+
+def list_docs():
+    """two rules, the second one a comma list, the two setting different properties, in both sheet orders: a declaration
+    belongs to exactly the selectors of its own rule, whatever was seen before"""
+    docs = []
+    for s1 in SELS:
+        for s2a in SELS:
+            for s2b in SELS:
+                if s2a == s2b:
+                    continue
+                for (p1, v1, _), (p2, _, v2) in ((a, b) for a in PVALS for b in PVALS if a is not b):
+                    r1 = "%s{%s:%s}" % (s1, p1, v1)
+                    r2 = "%s, %s {%s:%s}" % (s2a, s2b, p2, v2)
+                    for order, sheet in (("single-first", r1 + " " + r2), ("list-first", r2 + " " + r1)):
+                        docs.append(("%s|%s,%s|%s/%s|%s" % (s1, s2a, s2b, p1, p2, order), HEAD % "" + "<style>%s</style>" % sheet + BODY))
+    return docs
+
+
+def opacity_docs():
+    """fill-opacity / stroke-opacity at the ends of the range and beyond, from every kind of source"""
+    docs = []
+    for prop, paint in (("fill-opacity", "fill"), ("stroke-opacity", "stroke")):
+        for v in ("0", "0.0", "-0", "0e0", "1", "1.0", "0.5", "0.004", "0.996", "2", "-1"):
+            shape = '<rect id="L" class="k" width="3" height="4" %s="#336699"%s/><circle id="C" r="2" %s="#996633"/>'
+            for where in ("attr", "inline", "rule-id", "rule-class", "parent-attr", "parent-inline"):
+                style, gat, lat = "", "", ""
+                if where == "attr":
+                    lat = ' %s="%s"' % (prop, v)
+                elif where == "inline":
+                    lat = ' style="%s:%s"' % (prop, v)
+                elif where == "rule-id":
+                    style = "<style>#L{%s:%s}</style>" % (prop, v)
+                elif where == "rule-class":
+                    style = "<style>.k{%s:%s}</style>" % (prop, v)
+                elif where == "parent-attr":
+                    gat = ' %s="%s"' % (prop, v)
+                else:
+                    gat = ' style="%s:%s"' % (prop, v)
+                docs.append(("%s=%s@%s" % (prop, v, where), HEAD % "" + style + "<g%s>" % gat + shape % (paint, lat, paint) + "</g></svg>"))
+    return docs
+
+
 def build(tier, seed, svg):
-    return [Sources(svg, tier), Extras(svg, tier)]
+    lists = list_docs()
+    if tier != "thorough":
+        lists = lists[::3]
+    return [Sources(svg, tier), Extras(svg, tier), Generated(svg, tier, "lists", lists),
+            Generated(svg, tier, "opacity", opacity_docs())]
 
 
 MATCHERS = {}
